@@ -1,5 +1,5 @@
 (* Case runner and spec checker (T3) for C03. *)
-From WI Require Import Lib.Base Lib.Info Lib.Strings Model.Cert.
+From WI Require Import Lib.Base Lib.Info Lib.Strings Model.Cert Model.CertDer.
 Open Scope N_scope.
 
 (* ---------- decoding the harness's s-expressions ---------- *)
@@ -104,8 +104,41 @@ Definition lib_of_obs (a : arg) : result cert_fields :=
 Definition extras_of_arg (a : arg) : list (bytes * Z) :=
   map (fun x => (arg_bytes (arg_nth 0 x), arg_Z (arg_nth 1 x))) (arg_list a).
 
+(* the library's answers for the parts of a certificate that are not modelled octet by octet:
+   (names spkis sigs uris exts), each an association list keyed by the octets asked about *)
+Fixpoint assoc_bytes {A} (l : list (bytes * A)) (k : bytes) : option A :=
+  match l with
+  | [] => None
+  | (k', v) :: r => if bytes_eqb k k' then Some v else assoc_bytes r k
+  end.
+Definition oracles_of_arg (a : arg) : oracles :=
+  let names := map (fun x => (arg_bytes (arg_nth 0 x), arg_bytes (arg_nth 1 x))) (arg_list (arg_nth 0 a)) in
+  let spkis := map (fun x => (arg_bytes (arg_nth 0 x), spki_of_arg (arg_nth 1 x))) (arg_list (arg_nth 1 a)) in
+  let sigs := map (fun x => (arg_bytes (arg_nth 0 x), (arg_N (arg_nth 1 x), oid_of_arg (arg_nth 2 x)))) (arg_list (arg_nth 2 a)) in
+  let uris := map (fun x => (arg_bytes (arg_nth 0 x),
+                             match arg_list x with [_; s] => Some (arg_bytes s) | _ => None end)) (arg_list (arg_nth 3 a)) in
+  let exts := arg_list (arg_nth 4 a) in
+  {| o_name := assoc_bytes names;
+     o_spki := assoc_bytes spkis;
+     o_sig := assoc_bytes sigs;
+     o_uri := fun d => match assoc_bytes uris d with Some r => r | None => None end;
+     o_ext := fun id crit v =>
+       existsb (fun x => oid_eqb (oid_of_arg (arg_nth 0 x)) id && Bool.eqb (arg_bool (arg_nth 1 x)) crit &&
+                         bytes_eqb (arg_bytes (arg_nth 2 x)) v && arg_bool (arg_nth 3 x)) exts;
+     o_negative_serial := arg_bool (arg_nth 5 a) |}.
+
 Definition run_C03 (op : bytes) (input : arg) : arg :=
-  if bytes_eqb op (bs "ku") then
+  if bytes_eqb op (bs "der") then
+    match parse_certificate_der (oracles_of_arg (arg_nth 1 input)) (arg_bytes (arg_nth 0 input)) with
+    | Some f => AL [AZ 0; arg_of_fields f]
+    | None => AL [AZ 1]
+    end
+  else if bytes_eqb op (bs "derinspect") then
+    match describe_der (oracles_of_arg (arg_nth 1 input)) (arg_bytes (arg_nth 0 input)) with
+    | Some i => AL [AZ 0; arg_of_info i]
+    | None => AL [AZ 1]
+    end
+  else if bytes_eqb op (bs "ku") then
     AL (map AB (key_usages (arg_N (arg_nth 0 input))))
   else if bytes_eqb op (bs "eku") then
     AL (map AB (x509_ekus (map arg_N (arg_list (arg_nth 0 input))) (map oid_of_arg (arg_list (arg_nth 1 input)))))
@@ -298,12 +331,36 @@ Definition list_bytes_eqb (a b : list bytes) : bool :=
 Definition values_of (n : bytes) (attrs : list (bytes * bytes)) : list bytes :=
   map snd (filter (fun a => bytes_eqb (fst a) n) attrs).
 
+(* the SANs attribute (joinNames): items separated by ", "; an item between double quotes may contain
+   anything, a backslash taking the next octet literally; an unquoted item does not begin with a quote.
+   States: 0 at the start of an item, 1 inside an unquoted item, 2 inside quotes, 3 after the closing quote *)
+Fixpoint spec_names_go (st : N) (cur : bytes) (l : bytes) : option (list bytes) :=
+  match l with
+  | [] => if st =? 2 then None else Some [rev cur]
+  | c :: r =>
+      if st =? 2 then
+        (if c =? 92 then match r with d :: r' => spec_names_go 2 (d :: cur) r' | [] => None end
+         else if c =? 34 then spec_names_go 3 cur r
+         else spec_names_go 2 (c :: cur) r)
+      else if (c =? 44) && match r with d :: _ => d =? 32 | [] => false end then
+        match r with
+        | _ :: r' => match spec_names_go 0 [] r' with Some ts => Some (rev cur :: ts) | None => None end
+        | [] => None
+        end
+      else if st =? 3 then None
+      else if (st =? 0) && (c =? 34) then spec_names_go 2 cur r
+      else spec_names_go 1 (c :: cur) r
+  end.
+Definition spec_names (v : bytes) : option (list bytes) :=
+  match v with [] => Some [] | _ => spec_names_go 0 [] v end.
+
 (* one expectation: what must be printed under an attribute name *)
 Inductive expect :=
 | EExact (v : bytes)                  (* present exactly once with this value *)
 | EAbsent                             (* not present *)
-| EList (ordered : bool) (l : list bytes).   (* the listed items, no more, no fewer; when there are
+| EList (ordered : bool) (l : list bytes)    (* the listed items, no more, no fewer; when there are
                                                 none the attribute is absent or empty *)
+| ENames (l : list bytes).                   (* a non-empty list of names in any order, items quoted where needed *)
 
 Definition check_expect (attrs : list (bytes * bytes)) (name : bytes) (e : expect) : list bytes :=
   let vs := values_of name attrs in
@@ -328,6 +385,17 @@ Definition check_expect (attrs : list (bytes * bytes)) (name : bytes) (e : expec
           else [name ++ bs ": shown '" ++ x ++ bs "' but encoded '" ++ join [44; 32] l ++ bs "'"]
       | [], _ => [name ++ bs ": encoded '" ++ join [44; 32] l ++ bs "' but not shown"]
       | _, _ => [name ++ bs ": shown more than once"]
+      end
+  | ENames l =>
+      match vs with
+      | [x] =>
+          match spec_names x with
+          | Some ts => if perm_eqb l ts then []
+                       else [name ++ bs ": shown '" ++ x ++ bs "' but encoded '" ++ join [44; 32] l ++ bs "'"]
+          | None => [name ++ bs ": '" ++ x ++ bs "' is not a list of names"]
+          end
+      | [] => [name ++ bs ": encoded '" ++ join [44; 32] l ++ bs "' but not shown"]
+      | _ => [name ++ bs ": shown more than once"]
       end
   end.
 
@@ -356,7 +424,7 @@ Definition spec_expectations (c : enc_cert) : list (bytes * expect) := [
   (bs "Extended key usage", EList false (match e_ekus c with Some l => map spec_eku_text l | None => [] end));
   (bs "Max path length", match e_basic c with Some (true, Some n) => EExact (dec_of_Z n) | _ => EAbsent end);
   (bs "SANs", match e_sans c with
-              | Some l => match flat_map spec_san_text l with [] => EAbsent | ts => EList false ts end
+              | Some l => match flat_map spec_san_text l with [] => EAbsent | ts => ENames ts end
               | None => EAbsent end);
   (bs "Signature algorithm",
      match e_sig c with
@@ -455,6 +523,15 @@ Definition check_C03 (op : bytes) (input impl : arg) : arg :=
           | _ => first_error (check_certs encs (i_children i))
           end
     | _ => AS "inspection failed (error or panic)"
+    end
+  else if bytes_eqb op (bs "derinspect") then
+    (* the octets of one certificate through the tool; when the harness states what it encoded
+       (third component) the report is judged against that content *)
+    match arg_nth 2 input, impl with
+    | AL [e], AL [AZ 0%Z; ia] => first_error (check_cert (enc_of_arg e) (info_of_arg ia))
+    | AL [e], _ => AS "inspection failed (error or panic)"
+    | _, AL [AZ 2%Z] => AS "panic"
+    | _, _ => AL []
     end
   else
     match impl with
